@@ -125,6 +125,11 @@ def shard(args):
             opts.update(p_expect=0.5, p_interim=0.6)
         if i % 16 == 9:
             opts.update(close_delimited=False)
+        long_lived = (i % 32 == 6)
+        if long_lived:
+            # directed: a connection that outlives the initial capacity of its transaction list (16) while finished transactions are
+            # disposed of by the parser (tx_auto_destroy) or by the application, with or without htp_connp_tx_freed
+            opts.update(min_n=17, max_n=26, max_body=20)
         ex = grammar.gen_exchange(seed * 1000003 + i, opts)
         if i % 16 == 9:
             # directed: the last exchange of the connection is an accepted protocol upgrade (101 Switching Protocols, no body); the
@@ -157,6 +162,9 @@ def shard(args):
             style = style[:2] + (style[2] + '+connect',)
         cfg = {'PERSONALITY': r.randrange(10), 'URLENC_PARSER': r.randrange(2), 'DUMP': hxb.DUMP_TX, 'AUTO_DESTROY': 0,
                'DESTROY_DONE': 1 if r.chance(0.2) and connect_at is None else 0, 'MAX_TX': r.pick([-1, -1, 512, 100])}
+        if long_lived or (connect_at is None and r.chance(0.1)):
+            # who disposes of finished transactions: the parser (and the application may or may not recycle the slots), or nobody
+            cfg.update(r.pick([{'AUTO_DESTROY': 1, 'DESTROY_DONE': 0}, {'AUTO_DESTROY': 1, 'DESTROY_DONE': 2}, {'AUTO_DESTROY': 0, 'DESTROY_DONE': 1}, {}]))
         cases.append((i, cfg, ops))
         meta[i] = (ex, cfg, ops, readings, style)
     path = os.path.join(wd, 'b%d.hxb' % s)
